@@ -1,4 +1,118 @@
-import ShmVerif.Model.FreeListC
+import ShmVerif.Proof.FreeListInit
+/-!
+  C01 — a shared-memory buffer never has two owners at once.
+
+  Model: `FreeListC` (one step = one shared-memory access of bufferList.pop / push / the bufferHeader accessors).
+  * `c01_geometry`        : EVERY interleaving, any number of threads/slots/operations — every buffer handed out is one
+                            of the `n` slots of the class (inside the region, at a slot boundary).
+  * `c01_exclusive_seq`   : every sequential-atomic history (operations do not overlap; unbounded length, threads, slots) —
+                            every slot is in the free chain or owned by exactly one thread, never both, never twice.
+  * `c01_aba_witness`     : the unrestricted statement is FALSE of the model (and of the code: the same schedule is replayed
+                            on the real pop/push on every run, known finding F1): a concrete 2-thread schedule after which
+                            `head` designates a slot that another thread still holds.
+  The full concurrent statement restricted to ABA-free interleavings is NOT proved (see DESIGN.md §5 C01): the claim is partial.
+-/
 namespace Props.C01
-theorem placeholder : True := trivial
+open FreeListC
+
+/-- Geometry, all interleavings: every slot ever returned by `pop` (and every slot held) is `< n`. -/
+theorem c01_geometry (n : Nat) (hn : 0 < n) (progs : List (List Op)) (sched : List Nat) :
+    let s := run (prime (init n progs)) sched
+    ∀ th ∈ s.ths, (∀ i, Res.got i ∈ th.res → i < n) ∧ (∀ h ∈ th.held, h < n) := by
+  intro s th hth
+  have g : Geom s := run_geom _ sched (prime_geom _ (geom_init n hn progs))
+  have hlen : s.slots.length = n := by
+    -- slots.length is preserved by every step
+    have hstep : ∀ (s0 : State) (g0 : Geom s0) (t : Nat), (step s0 t).1.slots.length = s0.slots.length := by
+      intro s0 g0 t
+      unfold step
+      cases ht : s0.ths[t]? with
+      | none => rfl
+      | some th0 =>
+        have := (stepTh_geom s0 th0 g0 (g0.ths th0 (List.mem_of_getElem? ht))).1
+        simpa using this
+    have hrun : ∀ (sched : List Nat) (s0 : State), Geom s0 → (run s0 sched).slots.length = s0.slots.length := by
+      intro sched
+      induction sched with
+      | nil => intro s0 _; rfl
+      | cons t r ih =>
+        intro s0 g0
+        have := ih (step s0 t).1 (step_geom s0 t g0)
+        simp only [run, List.foldl_cons] at this ⊢
+        rw [this, hstep s0 g0 t]
+    have := hrun sched (prime (init n progs)) (prime_geom _ (geom_init n hn progs))
+    have e : (prime (init n progs)).slots.length = n := by simp [prime, init, initSlots_length]
+    exact this.trans e
+  have hok := g.ths th hth
+  rw [hlen] at hok
+  exact ⟨fun i hi => hok.res _ hi, hok.held⟩
+
+/-- Exclusive ownership for every sequential-atomic history: the free chain and the slots owned by the threads
+    partition `{0..n-1}` (no slot twice, none lost), after any number of non-overlapping pops and pushes. -/
+theorem c01_exclusive_seq (n : Nat) (hn : 0 < n) (progs : List (List Op)) (ts : List Nat) :
+    let s := seqRun (prime (init n progs)) ts
+    ∃ free, Chain s.slots free ∧ free.head? = some s.head ∧
+      (free ++ s.ths.flatMap owned).Nodup ∧ (free ++ s.ths.flatMap owned).length = n ∧
+      (∀ i ∈ free ++ s.ths.flatMap owned, i < n) := by
+  intro s
+  obtain ⟨free, h⟩ := seqRun_rep _ ts _ (rep_init n hn progs)
+  have hlen : s.slots.length = n := by
+    -- total count + Nodup + bound force slots.length = n through `Rep` of the initial and final states
+    have := h.total
+    have h0 := (rep_init n hn progs)
+    -- slots.length never changes: every opRun equation above only `modify`s slots
+    have hpres : ∀ (ts : List Nat) (s0 : State) (f0 : List Nat), Rep s0 f0 → (seqRun s0 ts).slots.length = s0.slots.length := by
+      intro ts
+      induction ts with
+      | nil => intro s0 f0 _; rfl
+      | cons t r ih =>
+        intro s0 f0 r0
+        obtain ⟨f1, r1⟩ := opRun_rep s0 t f0 r0
+        have e1 := ih (opRun 16 s0 t) f1 r1
+        simp only [seqRun, List.foldl_cons] at e1 ⊢
+        rw [e1]
+        -- one atomic op preserves the number of slots
+        cases hth : s0.ths[t]? with
+        | none => rw [opRun_none s0 t hth]
+        | some th =>
+          rcases r0.boundary th (List.mem_of_getElem? hth) with hpc | hpc | hpc
+          · rw [opRun_idle s0 t th hth hpc]
+          · by_cases hsz : s0.size ≤ 1
+            · rw [opRun_pop_fail s0 t th hth hpc hsz]
+            · cases hf : f0 with
+              | nil => have := r0.chain; simp [hf, Chain] at this
+              | cons a rest =>
+                cases hr : rest with
+                | nil => have := r0.size; simp [hf, hr] at this; omega
+                | cons b r' =>
+                  have hc := r0.chain; rw [hf, hr] at hc
+                  have ha : s0.head = a := by have := r0.head; simpa [hf] using this.symm
+                  rw [opRun_pop_ok s0 t th a b hth hpc ha (by omega) hc.1 hc.2.1]; simp
+          · rw [opRun_push s0 t th hth hpc]; simp
+    have := hpres ts _ _ h0
+    have e : (prime (init n progs)).slots.length = n := by simp [prime, init, initSlots_length]
+    exact this.trans e
+  refine ⟨free, h.chain, h.head, h.nodup, by rw [h.total, hlen], ?_⟩
+  intro i hi
+  rw [← hlen]; exact h.bound i hi
+
+/-- The ABA schedule (finding F1). Thread 0 stalls in `pop` between reading `head.next` and the head CAS; thread 1
+    performs pop, pop, push, pop, push, pop; thread 0's CAS then succeeds with a stale `next`:
+    `head` = slot 1, which thread 1 still holds — the full statement of C01 is false of the model. -/
+def abaProgs : List (List Op) := [[.pop], [.pop, .pop, .push 0, .pop, .push 1, .pop]]
+def abaSched : List Nat := [0, 0, 0, 0] ++ List.replicate 46 1 ++ [0]
+
+set_option maxRecDepth 100000 in
+theorem c01_aba_witness :
+    let s := run (prime (init 4 abaProgs)) abaSched
+    s.aba = true ∧ s.head = 1 ∧ (s.ths.getD 1 default).held = [1, 3] ∧ (s.ths.getD 1 default).pc = .idle := by
+  decide
+
+-- non-vacuity of the sequential theorem: a concrete history in which slots are handed out and recycled
+set_option maxRecDepth 100000 in
+example :
+    let s := seqRun (prime (init 3 [[.pop, .pop, .push 0], [.pop, .pop]])) [0, 1, 0, 1, 0]
+    (s.ths.map (·.res)) = [[.got 0, .nomore, .pushed 0], [.got 1, .nomore]] ∧ s.size = 2 := by
+  decide
+
 end Props.C01
